@@ -1151,7 +1151,8 @@ class CSSMatch(_DocumentNav):
                     # Can't do nested forms (haven't figured out why we never hit this)
                     if name == 'form':  # pragma: no cover
                         break
-                    if name in ('input', 'button'):
+                    # Only HTML elements are form controls, as in the selector that guards this check
+                    if name in ('input', 'button') and self.is_html_tag(child):
                         v = self.get_attribute_by_name(child, 'type', '')
                         # Attribute values are case sensitive in XML, as in the selector that guards this check
                         if v and (util.lower(v) if not self.is_xml else v) == 'submit':
@@ -1201,7 +1202,8 @@ class CSSMatch(_DocumentNav):
                     if child is el:
                         continue
                     tag_name = self.get_tag(child)
-                    if tag_name == 'input':
+                    # Only HTML elements are form controls, as in the selector that guards this check
+                    if tag_name == 'input' and self.is_html_tag(child):
                         is_radio = False
                         check = False
                         has_name = False
